@@ -15,12 +15,17 @@ import (
 //	[-replay file]   re-execute the case(s) in file (op lines) instead of generating
 //	[-shrink file]   ddmin the ops of the (single) case in file while the oracle
 //	                 keeps failing with -kind; result written to -out
-func main() {
-	if len(os.Args) < 2 {
+func main() { runMain(os.Args[1:]) }
+
+// bubble, when set (test binary), runs a function inside a testing/synctest bubble
+var bubble func(f func())
+
+func runMain(args []string) {
+	if len(args) < 1 {
 		fmt.Fprintln(os.Stderr, "usage: harness <suite> [flags]")
 		os.Exit(2)
 	}
-	suite := os.Args[1]
+	suite := args[0]
 	fs := flag.NewFlagSet(suite, flag.ExitOnError)
 	seed := fs.Uint64("seed", 1, "PRNG seed")
 	tier := fs.String("tier", "quick", "quick|thorough")
@@ -33,7 +38,7 @@ func main() {
 	feat := fs.String("feat", "", "features (k=v,k=v) of the failure to preserve while shrinking")
 	shard := fs.Int("shard", 0, "shard index")
 	nshards := fs.Int("nshards", 1, "number of shards")
-	fs.Parse(os.Args[2:])
+	fs.Parse(args[1:])
 
 	def, ok := suites[suite]
 	if !ok {
@@ -88,11 +93,24 @@ type Exec interface {
 }
 
 type SuiteDef struct {
-	Gen     func(cfg Config, emit func(header string, nontrivial bool, ops []string))
-	NewExec func(header string) Exec
+	Gen      func(cfg Config, emit func(header string, nontrivial bool, ops []string))
+	NewExec  func(header string) Exec
+	Synctest bool // every case runs inside a testing/synctest bubble (virtual time)
 }
 
 func runCase(o *Out, def SuiteDef, c genCase) {
+	if def.Synctest {
+		if bubble == nil {
+			fmt.Fprintln(os.Stderr, "this suite needs the test binary (go test -c): testing/synctest")
+			os.Exit(2)
+		}
+		bubble(func() { runCase1(o, def, c) })
+		return
+	}
+	runCase1(o, def, c)
+}
+
+func runCase1(o *Out, def SuiteDef, c genCase) {
 	o.Case(c.header)
 	if c.nontrivial {
 		o.NonTrivial()
